@@ -482,7 +482,9 @@ def drive(pid, mod, tier, seed, replay=None, workers=None, limit=None):
         }
         # evidence/ describes /repo only: a run against a scratch copy (VERIF_REPO, used for
         # deliberate breaks and seeded changes) writes beside it, into a git-ignored directory
-        edir = os.path.join(VERIF, 'evidence' if REPO == '/repo' else '.scratch-evidence')
+        # (a --limit run is a partial look at the workload and never evidence either)
+        edir = os.path.join(VERIF, 'evidence' if REPO == '/repo' and not limit
+                            else '.scratch-evidence')
         ev['coverage']['subject_tree'] = REPO
         os.makedirs(edir, exist_ok=True)
         tmp = os.path.join(edir, pid + '.json.tmp')
